@@ -13,12 +13,13 @@
       document order). *)
 From Coq Require Import List NArith Bool Lia.
 From XmlRs Require Import Base.CPred Base.NList Base.Float64.
+From XmlRs Require Import Spec.XPathCore Model.XPathFuncs.
 From XmlRs Require Import Model.XPathAst Model.XDoc Model.XPathScalar Model.XPathEval.
 From XmlRs Require Import Proofs.XPathEvalEqs Proofs.XPathNav Proofs.XPathSort Proofs.XPathAstPred.
 Import ListNotations.
 Open Scope N_scope.
 
-Lemma str_eqb_eq a : forall b, str_eqb a b = true -> a = b.
+Lemma str_eqb_eq (a : str) : forall b, str_eqb a b = true -> a = b.
 Proof.
   induction a as [|x a IH]; intros [|y b] H; cbn [str_eqb] in H; try discriminate; [reflexivity|].
   apply andb_prop in H. destruct H as [H1 H2]. apply N.eqb_eq in H1. subst. f_equal. apply IH. exact H2.
@@ -45,6 +46,7 @@ Hypothesis H_num : Total -> forall s, pn s = true -> rust_parse_f64 s <> None.
 Hypothesis H_fn : Total -> forall sv local sargs mn mx,
   pf local = true -> find_func local = Some (mn, mx) -> mn <= len sargs ->
   scalar_fn sv local sargs <> RPanic.
+Hypothesis H_fn_node : Total -> forall sv local sargs, scalar_fn sv local sargs <> RNeedsNode.
 
 (** ** the invariant *)
 Definition rinv {A} (GA : A -> Prop) (r : res A) : Prop :=
@@ -210,6 +212,12 @@ Qed.
 Lemma neg_value_rinv a : GV a -> rinv GV (neg_value doc a).
 Proof. intros Ha. unfold neg_value. destruct (val_to_number_ok a Ha) as [x ->]. exact I. Qed.
 
+Lemma neg_times_rinv k : forall a, GV a -> rinv GV (neg_times doc k a).
+Proof.
+  induction k as [|k IH]; intros a Ha; cbn [neg_times]; [exact Ha|].
+  eapply rinv_bind; [apply neg_value_rinv; exact Ha|]. intros b Hb. apply IH. exact Hb.
+Qed.
+
 Lemma exists_sv_rinv p l : Forall G l -> rinv Any (exists_sv doc p l).
 Proof.
   induction l as [|i t IH]; intros H; cbn [exists_sv]; [exact I|].
@@ -303,8 +311,8 @@ Proof.
     match uri, find_func l with
     | None, Some (mn, mx) =>
         if (nargs <? mn) || match mx with Some m => m <? nargs | None => false end
-        then Err (EInvalidArgumentCount l) else Ok l
-    | _, _ => Err (ENotFoundFunction l)
+        then Err (XErrInvalidArgumentCount l) else Ok l
+    | _, _ => Err (XErrNotFoundFunction l)
     end = Ok local -> local = l /\ exists mn mx, find_func local = Some (mn, mx) /\ mn <= nargs).
   { intros l uri E. destruct uri; [discriminate|]. destruct (find_func l) as [[mn mx]|] eqn:Ef; [|discriminate].
     destruct (N.ltb_spec nargs mn) as [Hlt|Hge]; cbn [orb] in E; [discriminate|].
@@ -348,9 +356,11 @@ Proof.
     destruct (uses_ctx_sv local); [|eexists; reflexivity].
     apply (string_value_ok doc Hwf). apply G_valid. exact Gn. }
   destruct Hsv as [sv ->]. cbn [bind].
-  destruct (scalar_fn sv local sargs) as [v| | | |] eqn:Es; cbn [rinv]; try exact I.
+  destruct (scalar_fn sv local sargs) as [v|e| |] eqn:Es; cbn [rinv]; try exact I.
   - destruct v; cbn [of_scalar GV]; try exact I. constructor.
+  - destruct e; exact I.
   - intros HT. eapply (H_fn HT sv local sargs mn mx); try eassumption. rewrite Hlen. exact Harity.
+  - intros HT. eapply (H_fn_node HT sv local sargs); eassumption.
 Qed.
 
 (** ** the induction *)
@@ -470,7 +480,7 @@ Proof.
     apply Ht; assumption.
   - (* EUnary *) intros inv_ u Hu Hok n Gn. split_ok Hok. rewrite eval_unary_expr_eq.
     apply (inv_bind GV); [apply Hu; assumption|]. intros v Hv.
-    destruct (N.even inv_); [apply inv_ret; exact Hv|apply inv_lift; apply neg_value_rinv; exact Hv].
+    apply inv_lift. apply neg_times_rinv. exact Hv.
   - (* EUnion *) intros l Hl Hok n Gn. split_ok Hok. apply Hl; assumption.
   - (* PathNil *) intros _. split.
     + intros acc n Hacc Gn. rewrite eval_union_rest_nil. apply inv_ret. apply Forall_union_finish. exact Hacc.
